@@ -637,10 +637,8 @@ def minimize_subcircuits(
             logger.debug("Subcircuit can not be replaced")
             continue
 
-        circuit = new_circuit
-        logger.debug("Improved circuit size")
-
-        # Update the states
+        # Update the states: every gate between the inputs and the outputs of the
+        # old circuit is removed (the new gates reuse some of these labels)
         for output in output_labels_mapping:
             node_states[output] = _NodeState.REMOVED
 
@@ -650,6 +648,9 @@ def minimize_subcircuits(
             list(output_labels_mapping.keys()),
         ):
             node_states[gate] = _NodeState.REMOVED
+
+        circuit = new_circuit
+        logger.debug("Improved circuit size")
 
     if enable_validation:
         miter_circuit = build_miter(circuit, initial_circuit)
